@@ -246,6 +246,61 @@ def ob_install_generators():
     return h
 
 
+class OptDir(str):
+    """what get_option('bindir') gives the interpreter: a string that remembers the option it came from"""
+    def __new__(cls, val, optname):
+        o = str.__new__(cls, val); o.optname = optname
+        return o
+
+
+def ob_install_targets():
+    """custom targets with 1-3 outputs and either ONE install_dir or one PER OUTPUT (false = do not install; a plain string; a directory option such as
+    get_option('bindir')), through the real Backend.generate_target_install and mintro.list_install_plan: every installed output is listed once, and its
+    install-plan destination - placeholders resolved - is the directory meson install really uses for THAT output"""
+    def h():
+        from mesonbuild.mesonlib import MachineChoice
+        prefix = '/usr'
+        roots = {'{prefix}': prefix, '{bindir}': 'bin', '{datadir}': 'share'}
+        nout = 1 + choose(3, 'outputs')
+        per_output = nout > 1 and choose(2, 'one install_dir per output') == 1
+        CH = [False, 'custom/d', OptDir('bin', '{bindir}'), OptDir('share', '{datadir}')]
+        dirs = [CH[choose(4, 'install_dir%d' % i)] for i in range(nout if per_output else 1)]
+        t = object.__new__(B.CustomTarget)
+        t.name = 'gen'; t.subproject = ''; t.install = True; t.install_dir = list(dirs); t.outputs = ['o%d.x' % i for i in range(nout)]
+        t.install_tag = ['t'] * nout; t.install_mode = None; t.build_by_default = True; t.for_machine = MachineChoice.HOST; t.has_custom_install_dir = True
+        be = object.__new__(BK.Backend)
+        machine = types.SimpleNamespace(system='linux')
+
+        class Machines:
+            def __getitem__(self, k): return machine
+        be.environment = types.SimpleNamespace(get_build_dir=lambda: '/bld', get_source_dir=lambda: '/src', get_prefix=lambda: prefix, machines=Machines())
+        be.build = types.SimpleNamespace(get_targets=lambda: {'gen@cus': t})
+        be.get_target_dir = lambda tt: 'sub'
+        d = types.SimpleNamespace(headers=[], man=[], data=[], install_subdirs=[], targets=[], symlinks=[], emptydir=[], build_dir='/bld', prefix=prefix)
+        be.generate_target_install(d)
+        want = {}
+        for i in range(nout):
+            dd = dirs[i] if per_output else dirs[0]
+            if dd is not False: want['sub/o%d.x' % i] = str(dd)
+        check(sorted(x.fname for x in d.targets) == sorted(want), 'exactly the outputs whose install_dir is not false are installed, each once')
+        for x in d.targets:
+            if x.fname in want: check(x.outdir == want[x.fname], 'each output goes to its own install_dir')
+        plan = MT.list_install_plan(None, None, types.SimpleNamespace(create_install_data=lambda: d))
+        ents = {p: e for sect, dd in plan.items() for p, e in dd.items()}
+        check(len(ents) == len(want), 'every installed output is listed once in the install plan')
+        for fname, outdir in want.items():
+            e = ents.get('/bld/' + fname)
+            check(e is not None, 'listed under its build path')
+            if e is None: continue
+            name = e['destination']
+            for ph, val in roots.items():
+                if name.startswith(ph): name = val + name[len(ph):]
+            check(MI.get_destdir_path('', prefix, name) == MI.get_destdir_path('', prefix, outdir + '/' + fname.rsplit('/', 1)[-1]),
+                  'the install-plan destination of an output, placeholders resolved, is where meson install puts that output')
+        cover('installed' if want else 'nothing')
+    return h
+
+
 def ob_options():
     def h():
         st = O.OptionStore(False)
@@ -293,4 +348,5 @@ def obligations(tier):
     out.append(Obligation('install-generators', ob_install_generators(), dict(kinds='headers | man | data | install_subdir | build target', directories='1-3 chars over ab/ (trailing slash, absolute, nested)',
                           placeholders='{prefix} {includedir} {mandir} {datadir}', strip_directory='both'), labels=('headers', 'man', 'data', 'install_subdirs', 'targets'), max_paths=3000000))
     out.append(Obligation('buildoptions', ob_options(), dict(options='project int/bool, system combo, builtin bool; symbolic values'), labels=('done',)))
+    out.append(Obligation('install-targets', ob_install_targets(), dict(real='Backend.generate_target_install, CustomTarget.install_dir_names, mintro.list_install_plan', outputs='1-3', install_dir="one for all | one per output; false | plain string | get_option('bindir') | get_option('datadir')"), labels=('installed', 'nothing')))
     return out
